@@ -6,7 +6,7 @@ import Arca.Model.EngineApi
 namespace Arca.Proofs.EngineApi
 open Arca.Model.EngineApi
 
-instance : DecidableEq (Except Err FileCache) := fun a b =>
+instance {α : Type} [DecidableEq α] : DecidableEq (Except Err α) := fun a b =>
   match a, b with
   | .ok x, .ok y => if h : x = y then isTrue (by rw [h]) else isFalse (fun h' => by cases h'; exact h rfl)
   | .error x, .error y => if h : x = y then isTrue (by rw [h]) else isFalse (fun h' => by cases h'; exact h rfl)
@@ -236,6 +236,22 @@ theorem mergeFrom_append_root (abs : String → String) (cs : List (Option FileC
       | ok acc' =>
         rw [hs] at h
         exact ih acc' h
+
+/-- merging a concatenation: merge the first list, continue with the second -/
+theorem mergeFrom_append (abs : String → String) (l₁ l₂ : List (Option FileCache)) (acc : FileCache) :
+    mergeFrom abs acc (l₁ ++ l₂) = match mergeFrom abs acc l₁ with
+      | .error e => .error e
+      | .ok acc' => mergeFrom abs acc' l₂ := by
+  induction l₁ generalizing acc with
+  | nil => rfl
+  | cons c r ih =>
+    cases c with
+    | none => exact ih acc
+    | some fc =>
+      simp only [List.cons_append, mergeFrom]
+      cases mergeStep abs acc fc with
+      | error e => rfl
+      | ok acc' => exact ih acc'
 
 /-! ### `lastWins` -/
 
